@@ -38,7 +38,8 @@ CHECKS.update({
              "true-residual test for its step system or is the direct solution, a flagged or drifted iterate is never stored (any run length); "
              "the decision and the residual test are regenerated from the loop tails (C04_acceptance.v: kept iff info = 0 and test passed; accepted "
              "residual at most 1e-9 of the right-hand side, no absolute term); the header of both time loops is regenerated too and the array-store loop "
-             "over the regenerated indices is proved to leave exactly the model's field in the array (C04_time_loop.v). The step system is the model's "
+             "over the regenerated indices is proved to leave exactly the model's field in the array (C04_time_loop.v; C04_end_to_end.v: regenerated header + "
+             "regenerated body + a solver that agrees with elimination = simulate_ideal / simulate_single of the model). The step system is the model's "
              "(proved equal to the translated _build_matrix); per-step residuals of the implementation's stored levels are computed "
              "by the float instance of that model inside Coq for every step of generated runs (nx to 400, p_f/p_i=0.9998); the "
              "tolerance and the info check are read behaviourally by intercepting bicgstab, with fault injection.",
